@@ -30,6 +30,7 @@
    drain, the synchronous wait after a zero-grace kill, or after the end): known finding F12.
    Executable definitions only. *)
 From NextestModel Require Import Base.Str Model.Clocks Model.UnitTimers Model.AbsTimers.
+From Coq Require Import MSets.MSetPositive.
 Open Scope N_scope.
 
 Record senv := { e_t : tracker; e_quiet : bool }.
@@ -169,3 +170,29 @@ Definition isl_dead (s : ustate) : bool :=
   timed_out s || match ph s with PTerminating TTimeout => true | _ => false end.
 Definition forget_isl_rem (s : ustate) : ustate :=
   with_ck s (set_isl (ck s) {| rem := 0; lpaused := lpaused (k_isl (ck s)) |}).
+
+(* ---------------------------------------------------------------- block certificate
+   A finite check on the abstract states of a certificate set S: from every state of S in the
+   running or terminating loop, with no Stop outstanding and no shutdown request delivered yet, a
+   Stop followed by the Continue brings every clock's pause flag back to what it was. (With
+   [cert_with] -- the owned clocks are paused in between -- and the fact that the table's
+   operations never touch a number, this makes a pure block invisible.) *)
+Definition flags_eqb (c d : clocks) : bool :=
+  Bool.eqb (spaused (k_sw c)) (spaused (k_sw d)) && Bool.eqb (lpaused (k_isl c)) (lpaused (k_isl d)) &&
+  Bool.eqb (lpaused (k_gsl c)) (lpaused (k_gsl d)) && Bool.eqb (spaused (k_wsw c)) (spaused (k_wsw d)) &&
+  Bool.eqb (lpaused (k_dsl c)) (lpaused (k_dsl d)) && Bool.eqb (spaused (k_dwsw c)) (spaused (k_dwsw d)).
+
+Definition block_ok (tbl : ptable) (a : astate) : bool :=
+  if rt_phase (ph (a_u a)) && negb (match t_jc (a_t a) with JStop => true | _ => false end) &&
+     match t_sh (a_t a) with Sh0 => true | _ => false end
+  then match astep tbl a (AReq RStop) with
+       | Ok a1 => match astep tbl a1 (AReq RContinue) with
+                  | Ok a2 => flags_eqb (ck (a_u a2)) (ck (a_u a))
+                  | Panicked => false
+                  end
+       | Panicked => false
+       end
+  else true.
+
+Definition block_cert (tbl : ptable) (S : pset) : bool :=
+  forallb (fun a => implb (PositiveSet.mem (code a) S) (block_ok tbl a)) all_astates.
